@@ -186,6 +186,7 @@ inductive Piece
   | raw (i : Nat)         -- `{x}` / `str(x)`: the argument's characters are sent as they are
   | shq (i : Nat)         -- `shlex.quote(x)`
   | dq (i : Nat)          -- `"{x}"`
+  | safe (i : Nat)        -- an int (`{mode:o}`, `str(n)`) or a variable *name*: by assumption non-empty, safe characters
 deriving DecidableEq, Repr
 
 abbrev Template := List Piece
@@ -197,6 +198,7 @@ def renderPiece (args : List (List Char)) : Piece → List Char
   | .raw i => arg args i
   | .shq i => shlexQuote (arg args i)
   | .dq i => '"' :: (arg args i ++ ['"'])
+  | .safe i => arg args i
 
 /-- the command line the Python code sends to the shell -/
 def render (t : Template) (args : List (List Char)) : List Char := (t.map (renderPiece args)).flatten
@@ -204,6 +206,7 @@ def render (t : Template) (args : List (List Char)) : List Char := (t.map (rende
 def Piece.isShQuoted : Piece → Bool
   | .lit _ => true
   | .shq _ => true
+  | .safe _ => true
   | _ => false
 
 /-- every argument occurrence of the template goes through `shlex.quote` -/
@@ -217,6 +220,13 @@ def specFeed (st : LexSt) (args : List (List Char)) : Template → LexSt
   | .raw i :: t => specFeed (st.pushLit (arg args i)) args t
   | .shq i :: t => specFeed (st.pushLit (arg args i)) args t
   | .dq i :: t => specFeed (st.pushLit (arg args i)) args t
+  | .safe i :: t => specFeed (st.pushLit (arg args i)) args t
+
+/-- the arguments at `safe` positions are what they are assumed to be: non-empty strings of safe characters -/
+def safeArgsOk (t : Template) (args : List (List Char)) : Bool :=
+  t.all (fun p => match p with
+    | .safe i => !(arg args i).isEmpty && (arg args i).all isSafe
+    | _ => true)
 
 def specLine (t : Template) (args : List (List Char)) : Res := finish (specFeed init args t)
 
